@@ -7,6 +7,8 @@ Contracts:
         values;  preparation = (only X gates) followed by inverse(readout): the sign correction adds no two-qubit gate
   table metadata truthful: C17.cost / C17.depth (checked there for every line; re-evaluated here for the advertised tables)
   M9: ASAP two-qubit depth is invariant under reversal and under single-qubit gates (used for readout = inverse)
+  glue (SYM, token terms): _get_preparation_circuit_modulo_phase returns exactly cancel(compose(table circuit, inverse(layer word))) or raises - for every
+        input and every n - so the two-qubit content of every delivered circuit is that of the table entry of the state's class
 Domain: as C01/C03 (all groups x signs for n<=4 exhaustive in the thorough tier; every class with seeded members above).
 """
 from __future__ import annotations
@@ -46,6 +48,8 @@ def run(ctx: core.Ctx):
             ctx.record(fam, PROVED if ok else REFUTED, rp if fam.total < 2 else None)
             if not ok:
                 ctx.violate(fam, key, what, rp)
+    from .. import prereq, symrun
+    prereq.pipeline_contracts(ctx)       # glue code (all n), layer-search segment contracts (all inputs), purity of the pipeline functions
     jobs, desc = e2e.build_jobs(ctx)
     results = core.pmap(e2e.eval_state, jobs)
     e2e.book(ctx, results, ("C04.",), lambda fam, n: GROUND if n <= 3 or (n == 4 and not ctx.quick) else (GROUND if n == 4 and "readout" in fam else BOUNDED))
